@@ -49,7 +49,8 @@ def case(draw, tier="quick"):
         sep = draw(st.text(max_size=2))
     n_orders = draw(st.sampled_from([1, 2, 5, 50, 100, 300, 2000 if tier == "thorough" else 600]))
     return {"names": names, "sep": sep, "n_orders": n_orders, "simulated": draw(st.booleans()),
-            "unknown": draw(st.booleans()), "stages": draw(st.sampled_from([1, 1, 2, 3]))}
+            "unknown": draw(st.booleans()), "stages": draw(st.sampled_from([1, 1, 2, 3])),
+            "closed": draw(st.booleans())}
 
 
 def make_orders(strategy, n, sep, market_id="1.100000000"):
@@ -170,11 +171,21 @@ def check(c):
                 classes.add("unknown-strategy")
                 if a is not None:
                     raise Violation("unknown-strategy-adopted", (), "reference of unknown strategy %r attached as %r" % (s.name[:30], a), c)
-        # delivering the same snapshot again adds nothing
+        # delivering the same snapshot again adds nothing and every reference still resolves to the very order that
+        # carries it - also when the market has been closed in between (the settlement update of a closed market)
         n1 = sum(len(m.blotter) for m in fw.markets)
+        if c.get("closed"):
+            for m in fw.markets:
+                m.close_market()
+            classes.add("market-closed-before-redelivery")
         fw._process_current_orders(ev)
         if sum(len(m.blotter) for m in fw.markets) != n1:
             raise Violation("adopted-twice", (), "second delivery changed the number of orders %d" % n1, c)
+        for m in fw.markets:
+            for o in m.blotter:
+                if adopted.get(o.id) is not o:
+                    raise Violation("adopted-twice", ("another-object", "closed" if c.get("closed") else "open"),
+                                    "after the second delivery reference %r belongs to another order object than before" % o.customer_order_ref, c)
         fw.simulated_execution.shutdown()
         fw.betfair_execution.shutdown()
         fw.betdaq_execution.shutdown()
